@@ -35,7 +35,7 @@ def main(argv=None):
         try:
             load_contracts()
             mod = importlib.import_module("props." + a.prop)
-            rep = Report(a.prop, tier, seed, level=getattr(mod, "LEVEL", "proof"))
+            rep = Report(a.prop, tier, seed, level=(getattr(mod, "META", None) or {}).get("level") or getattr(mod, "LEVEL", "proof"))
             mod.run(rep, tier)
             code = rep.finish()
         except Exception:
@@ -47,7 +47,7 @@ def main(argv=None):
         # development command: record which obligations are discharged on the (unchanged) tree
         load_contracts()
         mod = importlib.import_module("props." + a.prop)
-        rep = Report(a.prop, "thorough", 0, level=getattr(mod, "LEVEL", "proof"))
+        rep = Report(a.prop, "thorough", 0, level=(getattr(mod, "META", None) or {}).get("level") or getattr(mod, "LEVEL", "proof"))
         mod.run(rep, "thorough")
         rep.finish()
         ids = sorted(r.oid for r in rep.results if r.status == "discharged" and r.klass in ("P", "L"))
